@@ -1525,11 +1525,12 @@ def retry_api(rng, name):
     lr.field("next_page_token", "string")
     sa.rpc("List", P + ".ListReq", P + ".ListReply")
     timeouts = rng.sample([5, 12, 20, 33, 47, 60, 75, 90, 120], 6)
-    durs = ["0.1s", "0.5s", "1s", "1.25s", "0.250000000s", "2s", "0.05s"]
+    # incl. durations that are not a whole number of milliseconds
+    durs = ["0.1s", "0.5s", "1s", "1.25s", "0.250000000s", "2s", "0.05s", "0.0005s", "0.0125s", "1.0625s", "0.000250s"]
 
     def policy():
         ini = rng.choice(durs)
-        return {"initialBackoff": ini, "maxBackoff": rng.choice(["1s", "3.500000000s", "10s", "0.2s", "60s"]),
+        return {"initialBackoff": ini, "maxBackoff": rng.choice(["1s", "3.500000000s", "10s", "0.2s", "60s", "0.0045s", "2.00075s"]),
                 "backoffMultiplier": rng.choice([1.0, 1.3, 2, 2.5]), "maxAttempts": rng.choice([3, 5]),
                 "retryableStatusCodes": rng.sample(GRPC_CODES, rng.randint(1, 4))}
 
@@ -1569,7 +1570,7 @@ def retry_api(rng, name):
     return api
 
 
-C12_POSITIONS = ["field", "flat", "flat_dotted", "path", "path_dotted", "body", "query", "query_required", "routing", "routing_nested", "rpc", "file"]
+C12_POSITIONS = ["field", "flat", "flat_dotted", "path", "path_dotted", "path_dotted_parent", "body", "query", "query_required", "routing", "routing_nested", "rpc", "file"]
 
 
 def reserved_api(name, words, position):
@@ -1615,7 +1616,7 @@ def reserved_api(name, words, position):
         inner.field("other", "string", number=1)
         q = f.message(f"Req{i}")
         q.field("anchor", "string", number=1)
-        if position == "body":
+        if position in ("body", "path_dotted_parent"):
             q.field(w, P + f".Inner{i}", number=7)
         elif position == "query_required":
             q.field(w, "string", number=7, required=True)
@@ -1634,6 +1635,9 @@ def reserved_api(name, words, position):
             kw = dict(http={"get": f"/v1/{{{w}=things/*}}/p{i}"})
         elif position == "path_dotted":
             kw = dict(http={"get": f"/v1/{{inner.{w}=things/*}}/pd{i}"})
+        elif position == "path_dotted_parent":
+            # the reserved word is the PARENT segment of the path variable (the Update shape: {<resource>.name=...}, body <resource>)
+            kw = dict(http={"patch": f"/v1/{{{w}.other=things/*}}/pp{i}"}, body=w)
         elif position == "body":
             kw = dict(http={"post": f"/v1/{{anchor=anchors/*}}:b{i}"}, body=w)
         elif position == "query":
@@ -1928,6 +1932,10 @@ def mixin_api(rng, name, mixins, rules_mode, own_iam=None, add_iam=False, transp
             sel, r0 = rl[i]
             r1 = {k: (v.replace("/v1/", prefix + "/") if isinstance(v, str) and v.startswith("/v1/") else v) for k, v in r0.items()}
             verb = [k for k in r1 if k in ("get", "post", "delete")][0]
+            if "body" in r1 and rng.random() < 0.3:
+                # a rule may leave the body out although the RPC's published annotation has one: everything then travels in the query
+                del r1["body"]
+                api.tags.add("mixin-rule-without-body")
             roll = rng.random()
             if roll < 0.25:
                 # a second binding on the same URI with another verb / body: the first binding stays the one in effect
